@@ -47,9 +47,22 @@ type HarnessRun struct {
 	seed           int
 	deadline       time.Time
 	lemmaCache     map[string]Result
+	inputSeen      map[string]bool
 	simHits        int
+	cacheHits      int
 	sweeps         []sweepStats
 	directives     map[string][]string
+}
+
+func (h *HarnessRun) addInput(d InputDecl) {
+	if h.inputSeen == nil {
+		h.inputSeen = map[string]bool{}
+	}
+	if h.inputSeen[d.Name] {
+		return
+	}
+	h.inputSeen[d.Name] = true
+	h.inputs = append(h.inputs, d)
 }
 
 func newHarnessRun(name string) *HarnessRun {
